@@ -118,3 +118,11 @@ pub(crate) fn deserialize_extended_header(bytes: &[u8]) -> Result<ExtendedHeader
         StoreError::StoredDataError(s)
     })
 }
+
+/// Verification hooks: compiled only with `--cfg eigerco_lumina_verif` (see /verif).
+#[cfg(eigerco_lumina_verif)]
+#[doc(hidden)]
+#[allow(unused_imports, missing_docs, dead_code, unreachable_pub)]
+pub mod verif {
+    use super::*;
+}
